@@ -99,7 +99,8 @@ CHECKS = {
              "vertices and ANY chip order (this covers sequential, breadth-first, Hilbert and RCM, which differ only in the two "
              "orders; same-chip chains/duplicates by a merge/expand induction); the random placer likewise for every oracle of "
              "random choices; one step of the Python annealing kernel preserves the state invariant for any draw/accept "
-             "decision and any invariant-preserving kernel yields a feasible result; the Hilbert curve of every level enumerates "
+             "decision and any invariant-preserving kernel yields a feasible result (SA before the kernel and its trivial exit also "
+             "raise only documented errors and are complete; the float annealing loop's termination/completeness is harness-only); the Hilbert curve of every level enumerates "
              "its square exactly once (structural induction), so the Hilbert chip order side condition and completeness hold for "
              "machines of every size. breadth_first/hilbert/rcm.place are model entry points (forwarding shape-checked from source) "
              "with the three clauses as corollaries; Machine's membership test is regenerated from machine.py (its other "
@@ -130,7 +131,8 @@ CHECKS = {
         text="Full. Universal theorems over all images, option sets and histories about a Gallina model of boot() driven by "
              "constants, struct formats and the live sv struct regenerated on every run: datagram sequence, byte-exact "
              "reassembly (image except the 128-byte configuration area = packed sv with THIS call's options), returned "
-             "structs, history independence and untouched dictionaries, refutations for the code as found (option leak, "
+             "structs, history independence and untouched dictionaries (model = fixed or as-found step by an ast fact of boot.py + "
+             "C17's carrier inventory), refutations for the code as found (option leak, "
              "caller's dict mutated), error branches (unknown name, value that does not fit its field, size, alignment). "
              "Entry points MachineController.boot (width/height dropped, structs replaced; every controller's structs "
              "describe its own last boot after any operations) and rig-boot (dumped flag table = documented presets) are "
@@ -191,7 +193,7 @@ CHECKS = {
              "refutation without Fresh: the 65 537-command sequence-wrap witness, the known finding), window bound on every prefix, "
              "retransmission count and spacing, all transmissions of a command identical, timeout raised only after exactly "
              "`tries` unanswered sends and with the socket drained (no delivered reply overlooked), fatal codes, termination "
-             "under an honest select, no divergence of the sequence-number loop. The clock also advances while the command "
+             "under an honest select, no divergence of the sequence-number loop, the three possible endings in one corollary. The clock also advances while the command "
              "iterable and callbacks run (modelled). Statements of send_scp_burst/send_scp/seqs re-extracted from the ast each "
              "run (fail closed) against the text the model mirrors. Exact trace equality with the real SCPConnection on "
              "scripted fault schedules (socket/clock/select replaced from outside); independent trace oracle.",
@@ -206,8 +208,9 @@ CHECKS = {
              "the machine; likewise struct fields, per-core fields, fill (both branches) and link reads/writes; the repaired receive "
              "length always fits (refutation for the code as found). The struct tables are controller state replaced by boot() "
              "(shape re-extracted each run): field addresses follow the CURRENT tables. Composition with C06's burst model: a "
-             "burst that returns completes every chunk once for every sequence-counter state (wrap included), so a read over it "
-             "is exact or raises, never other bytes. Real controller vs simulated machine under fault schedules, multi-chip / "
+             "burst that returns completes every chunk once for every sequence-counter state; each callback splices the reply it "
+             "was actually handed, so a read over a burst is exact-or-raises UNDER own_replies (which C06 gives under causal + "
+             "fresh; without it a machine-checked witness returns another chunk's bytes: C06's seq-wrap finding seen from C07). Real controller vs simulated machine under fault schedules, multi-chip / "
              "multi-board / re-boot / context histories; every simulator reply re-checked by the Gallina machine (trace validator).",
         ref="4 C07", technique="Coq proof (tiling + order/repetition-independent execution) + py2v/ast translation + vm_compute correspondence + trace validator",
         note=TB + " SC&MP command semantics are as written in Model/Machine.v; struct.pack/unpack trusted; 'any covering order' rests on C06 under its freshness guard."),
@@ -264,7 +267,7 @@ CHECKS = {
              "slicing. The controller's struct table is a parameter of the model: P2P table, system description, get_machine, status "
              "slicing and IOBUF walk are proved for ANY struct layout (packaged file = an instance); the controller's only memory (SCP "
              "buffer size) is a model state and call histories are proved to return what a fresh controller returns; error clauses "
-             "(no route, short payload) and the views are theorems. Real SCPConnection/MachineController (one or several controllers, "
+             "(no route, short payload, a non-AppState byte in any of the 18 state slots aborts get_system_info) and the views are theorems. Real SCPConnection/MachineController (one or several controllers, "
              "moved layouts, reboots) run against a wire-level simulated machine written without rig; correspondence + ground-truth oracle.",
         ref="4 C14", technique="Coq proof (encode/decode round trips, exactness of the derived machine model) + py2v/ast translation + vm_compute correspondence",
         note=TB + " SC&MP reply layouts as documented; read chunking/retransmission are C07/C06; a 256-wide machine cannot be encoded in the 8-bit dimension fields and is excluded."),
